@@ -255,13 +255,15 @@ CHECKS["C12"] = dict(
           "Oracle: Close returns (a parked Close with nothing runnable is a deadlock verdict, never a time-out); nil => a later Get yields exactly the concatenation (the write linearizes between Create and Close); error => the key is unchanged; the gRPC variant of the size sequences is covered sequentially by C11's generator. "
           "parts 'rwenum'/'rwrand': the asynchronous read-writer alone, wired exactly as pkg/inline/db/create.go wires it (storing goroutine reading with a 32 KiB buffer, SetError on failure), no database: ALL schedules with <= 2 (quick) / <= 3 (thorough) forced preemptions of 9 write-size programs, plus rapid-generated programs x schedules; oracle: Close returns, nil => received bytes == concatenation, store failure => error of that class. "
           "parts 'lenum'/'lrand' repeat this on the LIGHT backend (the same use cases, repositories and real worker pool wired as pkg/inline/db.New wires them, over an in-memory key-value provider with Badger-like atomic transactions and the same hook points; content files real): ALL schedules with <= 2 forced preemptions (to working goroutines) of the catalogue programs marked deep (3-party programs) in the quick tier and of every catalogue program in the thorough tier, for every rotation of the client list, plus 4 000 / 400 000 generated programs x schedules. "
-          "non-trivial = the sequence contains an empty write or the schedule forces >= 1 preemption."),
+          "non-trivial = the sequence contains an empty write or the schedule forces >= 1 preemption. "
+          "part 'files' (E1, real scheduler, inline binding): groups of 2-6 files open at the same time - more than the database has workers (1-3) - written alternately 700 bytes at a time and closed last-opened-first or first-opened-first, inside and outside transactions; every Close must return (one that has not after 30 s never will) with nil, and each key then reads back as the concatenation of its writes."),
     assumptions=_E4_ASSUME,
     parts=[
         P("enum", "det", "TestC12Enum", dict(checks=1, shards=8, split=False, timeout=900), dict(checks=1, shards=16, split=False, timeout=3000), rapid=False, rewrite=_E4_DIRS),
         P("rand", "det", "TestC12Rand", dict(checks=240, shards=8, timeout=900), dict(checks=20000, shards=16, timeout=3400), rewrite=_E4_DIRS),
         P("rwenum", "det", "TestC12RWEnum", dict(checks=1, shards=8, split=False, timeout=900, env={"VERIF_RW_BOUND": "2"}),
           dict(checks=1, shards=16, split=False, timeout=3400, env={"VERIF_RW_BOUND": "3"}), rapid=False, rewrite=_E4_DIRS),
+        P("files", "seq", "TestC12Files", dict(checks=320, shards=16, timeout=900), dict(checks=8000, shards=16, timeout=3400)),
         P("rwrand", "det", "TestC12RWRand", dict(checks=4000, shards=8, timeout=900), dict(checks=400000, shards=16, timeout=3400), rewrite=_E4_DIRS),
     ],
 )
